@@ -761,3 +761,63 @@ Proof.
   eexists. split; [vm_compute; reflexivity|].
   constructor; [left; reflexivity|]. constructor; [right; reflexivity|]. constructor.
 Qed.
+
+(* ================================================================================================ *)
+(* 10. the property at kernel level: after a slow epoch with a history, the kernel state holds the   *)
+(*     aligned, regularised (co)variances of that epoch's history                                   *)
+(* ================================================================================================ *)
+
+Lemma tune_mm_kind : forall o diag keys h new,
+  tune_mm o diag keys h = Some new -> kind_ok diag new = true.
+Proof.
+  intros o diag keys h new Em. unfold tune_mm in Em.
+  destruct (hist_columns _ h); [|discriminate]. destruct (stack _); [|discriminate].
+  destruct diag.
+  - destruct (tune_diag _); [|discriminate]. injection Em as <-. reflexivity.
+  - destruct (tune_full _); [|discriminate]. injection Em as <-. reflexivity.
+Qed.
+
+Theorem slow_epoch_aligned_diag : forall sqrt_o keys st h st',
+  tune sqrt_o Sorted true keys true st (Some h) = Some st' ->
+  exists v, imm st' = Diag v /\
+    length v = length (flat_coords keys) /\
+    forall i name j, nth_error (flat_coords keys) i = Some (name, j) ->
+      exists s x, coord_series h name j = Some s /\ var_q s = Some x /\
+                  nth_error v i = Some (x + reg).
+Proof.
+  intros sqrt_o keys st h st' H. apply slow_epoch_fresh in H.
+  pose proof (tune_mm_kind _ _ _ _ _ H) as Hk.
+  destruct (imm st') as [v|m] eqn:E; [|discriminate].
+  exists v. split; [reflexivity|]. exact (aligned_diag Sorted keys h v H).
+Qed.
+
+Theorem slow_epoch_aligned_dense : forall sqrt_o keys st h st',
+  tune sqrt_o Sorted false keys true st (Some h) = Some st' ->
+  exists m, imm st' = Dense m /\
+    length m = length (flat_coords keys) /\
+    Forall (fun row => length row = length (flat_coords keys)) m /\
+    forall i name j i' name' j',
+      nth_error (flat_coords keys) i = Some (name, j) ->
+      nth_error (flat_coords keys) i' = Some (name', j') ->
+      exists s s' c, coord_series h name j = Some s /\ coord_series h name' j' = Some s' /\
+                     cov_q s s' = Some c /\
+                     entry m i i' = Some (if Nat.eqb i i' then c + reg else c).
+Proof.
+  intros sqrt_o keys st h st' H. apply slow_epoch_fresh in H.
+  pose proof (tune_mm_kind _ _ _ _ _ H) as Hk.
+  destruct (imm st') as [v|m] eqn:E; [discriminate|].
+  exists m. split; [reflexivity|]. exact (aligned_dense Sorted keys h m H).
+Qed.
+
+(* the flat order is the sorted arrangement of the listed keys *)
+Theorem flat_order_spec : forall keys,
+  Permutation keys (flat_order keys) /\ StronglySorted key_le (flat_order keys).
+Proof. intros keys. split; [apply flat_order_perm|apply flat_order_sorted]. Qed.
+
+Example ex_slow_epoch_aligned : exists st',
+  tune ex_sqrt Sorted true ex_keys true (mkK 1 (Diag [1;1;1;1;1;1;1])) (Some ex_hist) = Some st'.
+Proof. eexists. vm_compute. reflexivity. Qed.
+
+Example ex_slow_epoch_aligned_dense : exists st',
+  tune ex_sqrt Sorted false ex_keys true (mkK 1 (Dense [[1]])) (Some ex_hist) = Some st'.
+Proof. eexists. vm_compute. reflexivity. Qed.
